@@ -496,6 +496,15 @@ def rule_lookahead_nesting(ck, facts):
         if not inc and not dec:
             continue
         n += 1
+        # (deciders) the scan answers at a comma, at its own closing bracket or at the end of the look-ahead window; an
+        # explicit arm for any other kind of token (an operator such as `->`) decides "tuple or not" from something that
+        # can stand inside the first element
+        explicit = set(cov.primary_handled()) - set(getattr(cov, "catchall", ()))
+        extra = sorted(k for k in explicit - opens - closes - {"Comma"} if not k.endswith("BeginEnd"))
+        if extra:
+            ck.bad(R, "deciders|%s" % f.root.split("::")[-1], "%s decides whether a parenthesis holds a list by an explicit case for %s: such a token can occur inside the first element (`((float)->float, float)`), and the list is then read as a single parenthesised item although its elements, written the same way, are accepted elsewhere" % (f.short, extra), f.where())
+        else:
+            ck.ok(R, "deciders|%s" % f.root.split("::")[-1])
         key = "depth|%s" % f.short.split("::", 3)[-1]
         missing = sorted((opens - inc) | (closes - dec))
         if not missing:
